@@ -387,3 +387,48 @@ impl Clone for LazyPacked {
             (self is Raw) == (res is Raw), (self is NonEscStrRaw) == (res is NonEscStrRaw),
 //@end
 }
+
+// ---- accessors of a lazily kept value (C13: "reports the same child / number / string results as the DOM of its raw
+// text"): LazyRaw::get / as_number / as_str answer exactly from the cached one-level parse — never from a shortcut
+// over the raw text. `load` (the publish-once cache, C18) is opaque: it returns the one-level parse of this raw text,
+// a ghost `view()`; `Parsed::get` is the lookup in that parse (first member with that name / i-th element).
+//@extract file=src/value/value_trait.rs enum=JsonType
+//@subst /#\[derive\(Copy, Clone, PartialEq, Eq, Debug\)\]/ => #[derive(Copy, Clone)]
+//@subst /#\[repr\(u8\)\]/ => 
+//@end
+pub trait Index: Copy {
+    spec fn key_spec(&self) -> Option<Seq<u8>>;
+    spec fn index_spec(&self) -> Option<usize>;
+    fn as_key(&self) -> (r: Option<&str>) ensures r.is_some() == self.key_spec().is_some(), r.is_some() ==> str_bytes(r.unwrap()) == self.key_spec().unwrap();
+    fn as_index(&self) -> (r: Option<usize>) ensures r == self.index_spec();
+}
+impl Parsed {
+    pub uninterp spec fn lookup<I: Index>(&self, idx: I) -> Option<OwnedLazyValue>;
+    pub uninterp spec fn number_of(&self) -> Option<Number>;
+    pub uninterp spec fn str_of(&self) -> Option<Seq<u8>>;
+    #[verifier::external_body]
+    pub fn get<I: Index>(&self, index: I) -> (r: Option<&OwnedLazyValue>)
+        ensures r.is_some() == self.lookup(index).is_some(), r.is_some() ==> *r.unwrap() == self.lookup(index).unwrap(),
+    { unimplemented!() }
+}
+impl LazyRaw {
+    /// the one-level parse of this raw text (what `load` publishes), or None if the text does not parse
+    pub uninterp spec fn view(&self) -> Option<Parsed>;
+    pub uninterp spec fn jtype(&self) -> JsonType;
+    #[verifier::external_body]
+    pub fn load(&self) -> (r: Result<&Parsed>)
+        ensures r.is_ok() == self.view().is_some(), r.is_ok() ==> *r.unwrap() == self.view().unwrap(),
+    { unimplemented!() }
+    #[verifier::external_body]
+    pub fn get_type(&self) -> (r: JsonType) ensures r == self.jtype(), { unimplemented!() }
+//@extract file=src/lazyvalue/owned.rs impl="LazyRaw" fn=get
+//@sig
+        ensures
+            // an array answers index lookups, an object key lookups, both from the one-level parse; nothing else answers
+            res.is_some() ==> self.view().is_some() && self.view().unwrap().lookup(idx).is_some() && *res.unwrap() == self.view().unwrap().lookup(idx).unwrap()
+                && ((self.jtype() is Array && idx.index_spec().is_some()) || (self.jtype() is Object && idx.key_spec().is_some())),
+            // completeness: whenever the parse has the child, it is returned
+            ((self.jtype() is Array && idx.index_spec().is_some()) || (self.jtype() is Object && idx.key_spec().is_some()))
+                && self.view().is_some() && self.view().unwrap().lookup(idx).is_some() ==> res.is_some(),
+//@end
+}
